@@ -1,5 +1,9 @@
 """C06 — a command that fails changes nothing and leaves nothing running."""
+import json
+import os
+
 from m4check import run_property
+from vlib import *
 
 
 def D(name, hosts, targets, prefixes=()):
@@ -30,9 +34,52 @@ def directed():
     ]
 
 
+FAULT_CMDS = ["deploy_new", "redeploy", "redeploy_move", "deploy_unhealthy", "deploy_conflict", "rollout_deploy", "rollout_set",
+              "rollout_stop", "pause", "stop", "resume", "remove"]
+
+
+def fault_cases(res, work, tier):
+    """Every command under a file-system fault that makes the snapshot fail (and, for reference, without one): a command that
+    reports an error must have changed nothing (corr/C06fault.c06_fault_ok); the result must be the one without the fault (the
+    pinned code ignores a failed snapshot)."""
+    import m4x
+    from vlib import coq_build
+    cases = [{"cmd": c, "fault": f} for c in FAULT_CMDS for f in ("none", "tmpdir", "statedir")]
+    write_jsonl(work.path("fault.jsonl"), cases)
+    rc, out = go_test(work, ["common_test.go", "sim_test.go", "simrun_test.go", "assets_test.go", "c06_fault_test.go"], "^TestVerifC06Fault$",
+                      {"VERIF_IN": work.path("fault.jsonl"), "VERIF_OUT": work.path("fault-out.jsonl"), "GODEBUG": "", "GOGC": "100"},
+                      timeout=600, synctest=True)   # synctest only so that the shared harness files compile
+    if rc != 0 or not os.path.exists(work.path("fault-out.jsonl")):
+        return False, [], out
+    rows = read_jsonl(work.path("fault-out.jsonl"))
+    ok, blog = coq_build(["corr/C06fault.vo"])
+    if not ok or len(rows) != len(cases):
+        return False, [], blog if not ok else out
+    ref = {r["cmd"]: r["result"] for r in rows if r["fault"] == "none"}
+    terms = ["(mkFobs %s %s %s %s, %s, %s)" % (bool_lit(r["err"]), bool_lit(r["same_list"]), bool_lit(r["same_config"]), bool_lit(r["same_routing"]),
+                                               str_lit(r["result"].encode()), str_lit(ref[r["cmd"]].encode())) for r in rows]
+    vals = m4x.coq_map(work, "From KP Require Import model.Base corr.C06fault.", "", terms,
+                       "fun x => match x with (o, a, b) => (c06_fault_ok o, c06_fault_agrees a b) end", "C06fault", shard=40)
+    bad = [dict(r, what="a command that reported an error changed the list / a service's configuration / the routing (state file cannot be "
+                        "replaced: %s)" % r["fault"], replay_note="harness/c06_fault_test.go TestVerifC06Fault, case cmd=%s fault=%s" % (r["cmd"], r["fault"]))
+           for r, v in zip(rows, vals) if not v[0]]
+    differ = [r for r, v in zip(rows, vals) if v[0] and not v[1]]
+    mix = {}
+    for r in rows:
+        k = "%s/%s" % (r["fault"], r["result"].split(":")[0])
+        mix[k] = mix.get(k, 0) + 1
+    res.coverage["file_system_faults"] = {"cases": len(rows), "commands": len(FAULT_CMDS), "faults": ["none", "tmpdir", "statedir"],
+                                          "result_mix": mix, "monitor_failures": len(bad), "results_differing_from_the_fault_free_run": len(differ)}
+    if bad:
+        return True, bad, out
+    if differ:
+        return False, [], "CORRESPONDENCE: under a failing snapshot a command's result differs from its result without the fault (the pinned code ignores a failed snapshot): " + json.dumps(differ[0])[:1500]
+    return True, [], out
+
+
 def run(tier, seed):
     return run_property(
         "C06", tier, seed, ["C06.v", "M4link.v"], ["props/C06.vo", "props/M4link.vo"],
         profile={"deploy": 6, "deploy_fail": 9, "redeploy_same_fail": 5, "remove": 2, "restart": 1, "rollout_deploy": 3, "rollout_set": 3,
                  "rollout_stop": 1, "pause": 2, "stop": 2, "resume": 2},
-        monitor="c06_ok None h", n_quick=40, n_thorough=600, fixed=directed())
+        monitor="c06_ok None h", n_quick=40, n_thorough=600, fixed=directed(), extra=fault_cases)
